@@ -99,6 +99,11 @@ def verdicts_unit(res: CheckResult, hist: dict, expected: Dict[int, dict], ic: A
         # implementation are not the expected ones: is the effective contract still what the property says?)
         view = rt.view(j) if lists_from == "impl" else D.normalise_model_view(exp["views"][j - 1], hist["names"])
         cls = rt.classes[j]
+        stj = hist["cls"][j - 1]
+        if not stj["dbc"] and not stj["invs"] and stj["bases"]:
+            # a plain, undecorated subclass of a class with invariants: which of its members check the inherited
+            # invariants is left undefined by the documentation (inheritance needs DBC)
+            continue
         for name, mv in view["members"].items():
             if mv["kind"] not in ("fn", "prop", "static", "cls"):
                 continue
